@@ -23,7 +23,7 @@ Norm(e) == [op |-> e.op, k |-> e.k, s |-> e.s, r |-> e.r, ref |-> e.ref, c |-> e
 
 Apply(e) ==
     CASE e.ev = "reset"    -> PReset
-      [] e.ev = "config"   -> ps' = Cfg(ps, e.seqmode, e.delay, e.retry, e.rc)
+      [] e.ev = "config"   -> ps' = Cfg5(ps, e.seqmode, e.delay, e.retry, e.rc, IF "boexp" \in DOMAIN e THEN e.boexp ELSE FALSE)
       [] e.ev = "ctor"     -> ps' = Ctor(ps, e.k, e.tok)
       [] e.ev = "api"      -> ps' = Api(ps, Norm(e))
       [] e.ev = "snap"     -> ps' = Snap(ps, SeqToSet(e.keys), SeqToSet(e.active), SeqToSet(e.live))
